@@ -96,7 +96,7 @@ def run(ctx: Ctx):
     r = ctx.tlc("Validator", "Validator.cfg", constants={"MaxItems": 2}, tag="docs")
     recs = r.json_records()
     if not thorough:
-        recs = recs[::3]
+        recs = recs[::1]
     jobs = []
     for ver in ("1.0", "1.1"):
         for parser in ("etree", "lxml"):
